@@ -25,13 +25,17 @@ EXPECTED_PROBES = ['client_first', 'server_first', 'crossing',
                    'sent_inside_closing', 'app_close_inside_closing',
                    'message_between_closes', 'empty_close_payload',
                    'after_bad_close_on_earlier_connection', 'close_write_failed',
-                   'close_timeout_disabled']
+                   'close_timeout_disabled', 'two_connections_interleaved']
 
-CODES = [1000, 1001, 1002, 1003, 1007, 1008, 1009, 1010, 1011, 3000, 4999]
+# every code a peer may send: the RFC 6455 ones, the two registered later
+# (1012 service restart, 1013 try again later), the 3000 and 4000 ranges
+CODES = [1000, 1001, 1002, 1003, 1007, 1008, 1009, 1010, 1011, 1012, 1013,
+         3000, 3999, 4000, 4999]
 
 
 def plan(tier):
-    return [('seeded', 12000 if tier == 'quick' else 250000)]
+    return [('seeded', 12000 if tier == 'quick' else 250000),
+            ('pair', 800 if tier == 'quick' else 30000)]
 
 
 def _sclose(rng):
@@ -45,6 +49,20 @@ def _sclose(rng):
 
 
 def make_case(family, i, rng, tier):
+    if family == 'pair':
+        cs = []
+        for _ in range(2):
+            c = make_case('seeded', rng.randrange(3000), rng, tier)
+            while c.get('prelude') or c.get('close_write_fails') or \
+                    c.get('reply_after'):
+                c = make_case('seeded', rng.randrange(3000), rng, tier)
+            c['gaps'] = [rng.choice([0, 0, 1000])]
+            if c.get('seg') == 'bytes':
+                c['seg'] = 'cuts'
+            cs.append(c)
+        return {'pair': cs, 'kind': 'pair',
+                'order': [rng.randrange(2) for _ in range(
+                    rng.choice([2, 3, 5, 8]))] + [0, 1]}
     kind = ['client_first', 'server_first', 'crossing'][i % 3]
     pre = ST.make_items(rng, 4) if rng.random() < 0.8 else []
     for it in pre:
@@ -200,9 +218,28 @@ def _close_payload(code, reason):
 
 
 def execute(case):
+    if 'pair' in case:
+        # two connections alive at once, advanced in an interleaved order
+        res = Result()
+        a, b = case['pair']
+        sa, ea = build(a)
+        sb, eb = build(b)
+        trs = netsim.run_multi(netsim.pair_scenario(sa, sb, case['order']))
+        res.stats['probe:two_connections_interleaved'] += 1
+        _judge(res, a, sa, ea, trs[0])
+        h, sig, nt = res.digest, res.sig, res.nontrivial
+        _judge(res, b, sb, eb, trs[1])
+        res.digest = h + res.digest
+        res.sig = sig + '||' + res.sig
+        res.nontrivial = nt or res.nontrivial
+        return res
     res = Result()
     sc, expected = build(case)
     tr = netsim.run(sc)
+    return _judge(res, case, sc, expected, tr)
+
+
+def _judge(res, case, sc, expected, tr):
     res.stats.update(tr.world.stats)
     res.sim_us = tr.world.now
     res.digest = tr.digest()
